@@ -393,7 +393,7 @@ def check_items(res, items, consts, word, lo, hi, with_model=False):
                     case, expected=ov.brief(), observed=oc.brief(), mechanism=mech)
 
 
-def check_twins(res, prog, args, word, tag):
+def check_twins(res, prog, args, word, tag, with_model=False):
     """a whole GenAST program in its written form and with every literal routed through the mutable global: same timeline"""
     src_c, src_v = A.render(prog), A.render(prog, opaque=True)
     res['evaluations'] += 1
@@ -408,6 +408,11 @@ def check_twins(res, prog, args, word, tag):
         runner.fail(res, 'M-FOLD', f'{tag}: written form prints {oc.out[:60]!r} ({oc.klass}) but its run-time twin prints {ov.out[:60]!r} ({ov.klass})',
                     case, expected=ov.brief(), observed=oc.brief())
         return
+    if with_model:
+        ref, why = diff.model_run(prog, args, word)
+        if ref is not None and diff.compare_streams(ref, oc) is not None:
+            runner.fail(res, 'M-FOLD', f'{tag}: written form and run-time twin agree but the source semantics differ: {diff.compare_streams(ref, oc)}', case, expected=ref.brief(), observed=oc.brief())
+            return
     runner.count(res, 'program_twins_identical')
     res['nontrivial'].append(runner.case_id(src_c, tuple(args), word))
 
@@ -446,6 +451,11 @@ def run_shard(spec):
             else:
                 runner.count(res, 'byte_pairs_identical')
                 res['nontrivial'].append(runner.case_id(tag, word))
+        # const variables are substituted at compile time: a local constant must not replace a global one of the same name outside its scope
+        from ..gen import idioms as _idioms
+        for k, (tag, prog) in enumerate(_idioms.const_shadow_programs()):
+            if k % 3 == word % 3 or spec.get('tier') == 'thorough':
+                check_twins(res, prog, _idioms.CONST_SHADOW_ARGS[0], word, tag, with_model=True)
         # whole programs whose literals decide where data lives and which code is emitted (array literals made of constants
         # bound to mutable arrays, constant indices, literal operands next to calls): written form vs run-time twin
         from ..gen import idioms
